@@ -193,8 +193,8 @@ func c19Base() *Y {
 		E("name", Str("wf")),
 		E("functions", List(Map(E("name", Str("f")), E("params", Str("x")), E("command", Str("echo $x"))))),
 		E("steps", List(
-			Map(E("name", Str("s1")), E("command", Str("echo hi"))),
-			Map(E("name", Str("s2")), E("executor", Map(E("type", Str("http")))), E("command", Str("GET http://x"))),
+			Map(E("name", Str("s1")), E("command", Str("echo hi")), E("output", Str("VQ_OUT_KEEP"))),
+			Map(E("name", Str("s2")), E("executor", Map(E("type", Str("http")))), E("command", Str("GET http://x")), E("output", Str("VQ_OUT_KEEP2"))),
 			Map(E("name", Str("s3")), E("call", Map(E("function", Str("f")), E("args", Map(E("x", Str("v"))))))),
 			Map(E("name", Str("s4")), E("run", Str("sub"))),
 		)),
@@ -227,6 +227,8 @@ func clearDir(d string) {
 	os.RemoveAll(d)
 	os.MkdirAll(d, 0o755)
 }
+
+var presetVars = []string{"VQ_OUT_KEEP", "VQ_OUT_KEEP2", "CANARY_SET_ENVMAP", "CANARY_SET_ENVLIST", "CANARY_SET_PARAM"}
 
 var quietLogger = logger.NewLogger(logger.NewLoggerArgs{Quiet: true})
 
@@ -295,6 +297,12 @@ func runC19(k int, stream string, planted []string, src *Y) *C19Case {
 		v := "`touch " + cdir + "/" + id + ".env`"
 		os.Setenv(canaryVar(id), v)
 		c.Env0[canaryVar(id)] = v
+	}
+	// variables the document NAMES (output: of the steps, env keys, parameter names) exist beforehand: an entry point
+	// that removes or overwrites one of them shows in the environment difference
+	for _, k := range presetVars {
+		os.Setenv(k, "preset")
+		c.Env0[k] = "preset"
 	}
 	file := writeDoc(dagDir, caseFile+".yaml", doc)
 	bytesDoc := []byte(doc)
